@@ -52,3 +52,4 @@ pub assume_specification<T: Ord>[<[T]>::sort_unstable](s: &mut [T])
 pub assume_specification<T>[<[T]>::swap](s: &mut [T], a: usize, b: usize)
     requires a < old(s)@.len(), b < old(s)@.len()
     ensures final(s)@ == old(s)@.update(a as int, old(s)@[b as int]).update(b as int, old(s)@[a as int]);
+pub assume_specification<T>[bool::then_some](b: bool, t: T) -> (r: Option<T>) ensures r == (if b { Some(t) } else { None::<T> });
